@@ -906,7 +906,9 @@ def emit_fn(unit, blk, rel):
         r10_self(body)
     if blk.strip_turbofish is not None:
         r2_turbofish(body, blk.strip_turbofish or None)
-    for (frm, to) in blk.replaces:
+    # R12: the std / tevec iterator constructors are always mapped to the A-ITER model functions
+    default_r12 = [("std::iter::repeat_n", "repeat_n"), ("std::iter::repeat", "repeat"), ("TrustIter::new", "trust_iter_new")]
+    for (frm, to) in blk.replaces + [d for d in default_r12 if d[0] not in [r[0] for r in blk.replaces]]:
         toks_b = body.toks()
         pat = [t.text for t in tokenize(frm)]
         hits = _find_seq(toks_b, pat)
